@@ -631,6 +631,35 @@ package chain
 //@   requires [tip-parent] s.Index.Height < 18446744073709551615
 //@   ensures [index] best == remove(old(best), s.Index.Height + 1) && sheight == s.Index.Height
 // (assumed frames of the bucket-level writers: they change the write counter and the backend only)
+// Block records: putBlock / getBlock are the encoders of the Blocks bucket (assumed to write and
+// read one record: header always, body and supplement when given); AddBlock, PruneBlock and Block
+// are proved to implement the Store contract on hdr / body / supp through them.
+//@ pred headersKeyed() = forall id types.BlockID :: { hdr[id] } (id in hdr) ==> hdr[id].ID() == id
+//@ func (*DBStore).putBlock
+//@   assigns heap:DBStore, ghost:hdr, ghost:body, ghost:supp
+//@   ensures db.db == old(db.db) && db.n == old(db.n)
+//@   ensures hdr == old(hdr)[bh.ID() := bh]
+//@   ensures body == ite(b != nil, old(body)[bh.ID() := *b], remove(old(body), bh.ID()))
+//@   ensures supp == ite(bs != nil, old(supp)[bh.ID() := true], remove(old(supp), bh.ID()))
+//@ func (*DBStore).getBlock
+//@   assigns nothing
+//@   returns bh, b, bs, ok
+//@   ensures (ok <==> id in hdr) && (ok ==> bh == hdr[id])
+//@   ensures ((ok && b != nil) <==> id in body) && (ok && b != nil ==> *b == body[id])
+//@   ensures ((ok && bs != nil) <==> id in supp)
+//@ func (*DBStore).AddBlock props C01,C03
+//@   requires db != nil
+//@   ensures [record] hdr == old(hdr)[b.ID() := b.Header()] && body == old(body)[b.ID() := b]
+//@   ensures [supplement] supp == ite(bs != nil, old(supp)[b.ID() := true], remove(old(supp), b.ID()))
+//@ func (*DBStore).PruneBlock props C19
+//@   requires db != nil && recordInv() && headersKeyed()
+//@   ensures [pruned] body == remove(old(body), id) && supp == remove(old(supp), id)
+//@   ensures [header-kept] hdr == old(hdr)
+//@ func (*DBStore).Block props C19
+//@   requires db != nil && recordInv()
+//@   ensures [body] (result2 <==> id in body) && (result2 ==> result0 == body[id])
+//@   ensures [supplement] (result1 != nil) <==> (result2 && id in supp)
+//
 // The best-chain index: putBestIndex / deleteBestIndex / putHeight are encoding wrappers around
 // one operation on the MainChain bucket each (assumed point updates of the abstract index `best`
 // and of the tip height `sheight` that the Store interface is specified with); applyState and
